@@ -371,8 +371,11 @@ func c17Pair(i int, r *rand.Rand, e *c16Env, res *core.Result) {
 		ft := metav1.NewTime(now.Add(-time.Minute))
 		old.Status.Condition.Finished = &execution.JobConditionFinished{FinishTimestamp: ft, Result: execution.JobResultSuccess}
 	}
-	killStage := []string{"none", "future", "passed"}[r.Intn(3)]
+	killStage := []string{"none", "future", "passed", "reached-now"}[r.Intn(4)]
 	switch killStage {
+	case "reached-now":
+		k := metav1.NewTime(now)
+		old.Spec.KillTimestamp = &k
 	case "future":
 		k := metav1.NewTime(now.Add(10 * time.Minute))
 		old.Spec.KillTimestamp = &k
@@ -450,7 +453,7 @@ func c17Pair(i int, r *rand.Rand, e *c16Env, res *core.Result) {
 			nw.Spec.KillTimestamp = &k
 		}
 		what = "kill timestamp (" + killStage + ")"
-		mustReject = killStage == "passed"
+		mustReject = killStage == "passed" || killStage == "reached-now"
 	default:
 		nw.Labels["note"] = "edited"
 		what = "an ordinary label"
